@@ -2547,6 +2547,10 @@ PPL::Polyhedron::simplify_using_context_assign(const Polyhedron& y) {
         = non_redundant_ineq_p.size();
       const dimension_type y_cs_num_ineq = y_cs_num_rows - y_cs_num_eq;
 
+      // Are there equalities of `z' that are masked by inequalities?
+      const bool masked_eq_needed
+        = (num_non_redundant_eq < needed_non_redundant_eq);
+
       // Compute saturation info.
       const dimension_type sat_num_rows = non_redundant_ineq_p_size;
       Bit_Matrix sat(sat_num_rows, z_gs_num_rows);
@@ -2558,24 +2562,27 @@ PPL::Polyhedron::simplify_using_context_assign(const Polyhedron& y) {
             sat_i.set(j);
           }
         }
-        if (sat_i.empty() && num_non_redundant_eq < needed_non_redundant_eq) {
-          // `non_redundant_ineq_i' is actually masking an equality
-          // and we are still looking for some masked inequalities.
-          // Iteration goes downwards, so the inequality comes from x_cs.
-          PPL_ASSERT(i >= y_cs_num_ineq);
+        if (sat_i.empty() && masked_eq_needed && i >= y_cs_num_ineq) {
+          // `non_redundant_ineq_i' is an inequality of `x' masking an
+          // equality, and the equalities of `x' and `y' are not enough
+          // to obtain all the equalities of `z'.
+          // All of these inequalities are kept: an equality of `z' may be
+          // forced only by several of them together (e.g., by a pair of
+          // opposite bounds), so that keeping just one inequality for each
+          // independent masked equality would not preserve the meet.
+          non_redundant_eq.insert(non_redundant_ineq_i);
           // Check if the equality is independent in eqs.
           Constraint masked_eq = non_redundant_ineq_i;
           masked_eq.set_is_line_or_equality();
           masked_eq.sign_normalize();
           if (add_to_system_and_check_independence(eqs, masked_eq)) {
-            // It is independent: add the _inequality_ to non_redundant_eq.
-            non_redundant_eq.insert(non_redundant_ineq_i);
             ++num_non_redundant_eq;
           }
         }
       }
-      // Here we have already found all the needed (masked) equalities.
-      PPL_ASSERT(num_non_redundant_eq == needed_non_redundant_eq);
+      // Here we have already found all the needed (masked) equalities
+      // (some of them may be masked by inequalities of `y').
+      PPL_ASSERT(num_non_redundant_eq <= needed_non_redundant_eq);
 
       drop_redundant_inequalities(non_redundant_ineq_p, x.topology(),
                                   sat, z_cs_num_eq);
